@@ -90,6 +90,64 @@ def stream_sched(ctx):
         ctx.stat("acceptor_events", len(lines))
 
 
+def qfork_monitors(r):
+    """one enqueue handler, a sink that refuses some messages (catch=True: the worker reports on sys.stderr), forks"""
+    s = r.sched
+    bad = []
+    if s.deadlock:
+        bad.append("deadlock: %r never finished" % (s.deadlock,))
+        return bad
+    for tn, e in s.errors:
+        bad.append("internal error in %s: %s: %s" % (tn, type(e).__name__, e))
+    for tn, res in r.fork_results:
+        if isinstance(res, list):
+            bad.extend("fork by %s: %s" % (tn, b) for b in res)
+    puts = [val[4:] for (tn, kind, obj, val) in s.trace if kind == "put" and isinstance(val, str) and val.startswith("msg:")]
+    fail = set(r.program.get("fail", ()))
+    want = [m for m in puts if m not in fail]
+    if s.finished and r.sink.items != want[:len(r.sink.items)]:
+        bad.append("sink order %r is not the put order %r (refused: %r)" % (r.sink.items, want, sorted(fail)))
+    if sorted(r.sink.failed) != sorted(m for m in puts if m in fail)[:len(r.sink.failed)]:
+        bad.append("refused messages %r, expected %r" % (r.sink.failed, [m for m in puts if m in fail]))
+    return bad
+
+
+def stream_qfork(ctx):
+    """forks against the ENQUEUE WORKER: sink writes and the worker's error reports (a sink that raises, catch=True)"""
+    from harness import c03
+    rng = ctx.rng.fork("qfork")
+    boost = 4 if getattr(ctx, "search_boost", False) else 1
+    nv = [0]
+    for pi in range(ctx.n(8, 40) * boost):
+        if boost > 1 and nv[0]:
+            break
+        r0 = rng.fork("p%d" % pi)
+        nlog = r0.range(1, 3)
+        threads = [[["log"] for _ in range(nlog)] + ([["complete"]] if r0.chance(40) else []),
+                   [["fork"]] + ([["log"]] if r0.chance(50) else [])]
+        if r0.chance(35):
+            threads.append([["log"], ["fork"]])
+        msgs = ["t%d-%d" % (ti + 1, j) for ti, ops in enumerate(threads) for j, op in enumerate(ops) if op[0] == "log"]
+        fail = [m for m in msgs if r0.chance(60)] or msgs[:1]
+        prog = {"procs": [0] * len(threads), "threads": threads, "fail": fail, "catch": True}
+        if pi < 2:
+            ctx.sample({"stream": "qfork", "program": prog})
+
+        def on_run(r, pre=None, prog=prog):
+            bad = qfork_monitors(r)
+            s = r.sched
+            ctx.case(("qfork", json.dumps(prog, sort_keys=True), tuple(s.choices)), nontrivial=(s.preemptions >= 1))
+            ctx.stat("qfork:runs")
+            ctx.stat("qfork:fork_points", sum(1 for (_tn, k, _o, _v) in s.trace if k == "forked"))
+            ctx.stat("qfork:worker_reports", sum(1 for (_tn, k, _o, _v) in s.trace if k == "ewrite") // 2)
+            if bad and nv[0] < 3:
+                nv[0] += 1
+                ctx.violation(bad[0], {"stream": "qfork", "program": prog, "schedule": list(s.choices),
+                                       "violations": bad[:5]})
+            return bad
+        c03.dfs(prog, bound=2, limit=ctx.n(120, 1500) * (4 if boost > 1 else 1), on_run=on_run)
+
+
 def stream_storm(ctx):
     rng = ctx.rng.fork("storm")
     configs = [
@@ -124,6 +182,7 @@ def stream_storm(ctx):
 
 def run(ctx):
     stream_sched(ctx)
+    stream_qfork(ctx)
     stream_storm(ctx)
 
 
@@ -132,6 +191,12 @@ def replay(ctx, rep):
     if r.get("stream") == "sched":
         run_ = c02.Run(r["program"], sched.replay_chooser(r["schedule"])).execute()
         bad = c02.monitors(run_)
+    elif r.get("stream") == "qfork":
+        from harness import c03
+        run_ = c03.Run(r["program"], sched.replay_chooser(r["schedule"])).execute()
+        bad = qfork_monitors(run_)
+        for e in run_.sched.trace[-30:]:
+            print("   ", e)
     else:
         env = dict(os.environ, PYTHONPATH=core.REPO)
         p = subprocess.run(["/venv/bin/python", os.path.join(core.VERIF, "harness", "c15_storm.py"),
